@@ -68,9 +68,15 @@ func (r *salt) next() uint64 {
 	return z ^ (z >> 31)
 }
 
+// bigBases are the bases of the generator's integers beyond TLC's range: value = base + off (off in 0..3).
+var bigBases = map[string]int64{"p53": 1 << 53, "n53": -(1 << 53) - 3, "p62": 1 << 62, "max": math.MaxInt64 - 3, "min": math.MinInt64}
+
 func absInt(m abs) (int64, uint64, bool) { // value, as uint64, isBigUnsigned
 	if v, ok := m["v"]; ok {
 		return num(v), 0, false
+	}
+	if b, ok := m["big"].(string); ok {
+		return bigBases[b] + num(m["off"]), 0, false
 	}
 	txt := decText(m["dec"])
 	r, _ := new(big.Rat).SetString(txt)
